@@ -137,6 +137,13 @@ def gen_enums(rng, n, big=False):
     return enums
 
 
+def big_ids(rng, nf):
+    """distinct field ids up to 2^32-1 whose low bytes collide or run against the real order"""
+    highs = rng.sample([0, 1, 2, 3, 255, 256, 257, 65535, 65536, 70000, (1 << 24) - 1, (1 << 24) - 2], nf) if nf <= 12 \
+        else rng.sample(range(0, 1 << 24), nf)
+    return [h * 256 + rng.randint(0, 3) for h in highs]
+
+
 def gen_codec_desc(rng, max_structs=4, max_fields=6, depth=3, var=True):
     d = Desc()
     d.enums = gen_enums(rng, rng.randint(0, 2), big=True)
@@ -147,6 +154,8 @@ def gen_codec_desc(rng, max_structs=4, max_fields=6, depth=3, var=True):
         ids = rng.sample(range(0, 3 * nf + 1), nf)
         if rng.random() < 0.5:
             ids.sort()
+        if rng.random() < 0.2:
+            ids = big_ids(rng, nf)
         fields = []
         prev = [x[0] for x in d.structs]
         for j in range(nf):
